@@ -72,7 +72,6 @@ def eval_f32(e, env):
 
 def check(ctx, case):
     src = case.source()
-    ctx.count()
     ctx.label("kind:" + case.kind)
     c = adapter.compile_src(src, wasm=True)
     refusal = None
@@ -85,6 +84,7 @@ def check(ctx, case):
         except Exception as e:
             refusal = "WriteTo: %r" % (e,)
     if refusal is not None:
+        ctx.count()
         ctx.label("refused")
         ctx.label("refused:" + case.kind)
         if case.kind == "subset":
@@ -110,6 +110,7 @@ def check(ctx, case):
         if not f.exported:
             continue
         for args, gl in case.all_inputs[f.name]:
+            ctx.count()   # one evaluation = one exported function called on one argument vector
             try:
                 interp.run(case.prog, f.name, args, gl, step_limit=5000)
             except OutOfDomain as e:
